@@ -70,6 +70,12 @@ Definition should_put_first (o : wopts) (clen : N) (ident : bool) : res bool :=
 (* length of a CIDv1 with that codec, hash code and digest length *)
 Definition cid_v1_len (codec code n : N) : N := uv_size 1 + uv_size codec + uv_size code + uv_size n + n.
 
+(* util.LdWrite frames a section with a length varint written into an 8-byte buffer: a section of
+   2^56 bytes or more panics there.  The model does not reproduce the panic; the theorems about sessions
+   take this executable guard on the history instead. *)
+Definition ld_write_ok (b : block) : bool := blen (fst b) + blen (snd b) <? 2 ^ 56.
+Definition history_ok (h : list batch) : bool := forallb (forallb ld_write_ok) h.
+
 (* ---- layer B: the stored blocks ---------------------------------------------------------------
    The de-duplicated puts in order.  The decision for one block is the library's ShouldPut
    evaluated on the index of what is stored so far (C04 is about what that decision means);
@@ -203,7 +209,14 @@ Definition all_zero (s : bytes) : bool := forallb (fun b => b2n b =? 0) s.
 
 (* Some (roots, blocks) = the file is a well-formed finished archive for options o carrying
    exactly that content *)
-Definition wf_parse (o : wopts) (file : bytes) : option (list bytes * list block) :=
+(* [exactflag]: the fully-indexed bit must equal StoreIdentityCIDs (what store.Finalize writes); otherwise
+   it only must not lie: set implies that identity CIDs are indexed (WrapV1 and the traversal writers never
+   set it) *)
+Definition flag_ok (exactflag storeid : bool) (hi : N) : bool :=
+  if exactflag then hi =? (if storeid then fully_indexed_bit else 0)
+  else (hi =? 0) || ((hi =? fully_indexed_bit) && storeid).
+
+Definition wf_finished (exactflag : bool) (o : wopts) (file : bytes) : option (list bytes * list block) :=
   if w_v1 o then
     match ref_scan file with
     | Some (roots, secs) => Some (roots, map sec_block secs)
@@ -218,7 +231,7 @@ Definition wf_parse (o : wopts) (file : bytes) : option (list bytes * list block
     let doff := le_dec (take 8 (drop 16 s)) in
     let dsize := le_dec (take 8 (drop 24 s)) in
     let ioff := le_dec (take 8 (drop 32 s)) in
-    if negb ((hi =? (if w_storeid o then fully_indexed_bit else 0)) && (lo =? 0)) then None
+    if negb (flag_ok exactflag (w_storeid o) hi && (lo =? 0)) then None
     else if negb (doff =? 51 + w_dpad o) then None
     else if negb (ioff =? doff + dsize + w_ipad o) then None
     else if blen file <? ioff then None
@@ -235,6 +248,9 @@ Definition wf_parse (o : wopts) (file : bytes) : option (list bytes * list block
         | _ => None
         end
       end.
+
+(* a file left by store.Finalize *)
+Definition wf_parse (o : wopts) (file : bytes) : option (list bytes * list block) := wf_finished true o file.
 
 Definition wf_car (o : wopts) (file : bytes) : bool :=
   match wf_parse o file with Some _ => true | None => false end.
